@@ -379,6 +379,8 @@ def main():
     cov["failover_scenarios"] = {}
     for r in fres:
         cov["failover_scenarios"][r["name"]] = dict(r["stats"], inconclusive=r["inconclusive"])
+        for sig, replay, what in r["violations"]:
+            v.report(sig, replay, what=what)
         if r["inconclusive"]:
             print("NOTE: scenario %s inconclusive (%s)" % (r["name"], r["inconclusive"]), flush=True)
         if r["path"]:
